@@ -8,8 +8,8 @@ Open Scope of_scope.
 
 (* the code as translated from /repo on this run, over every ordered field, for every history of batches *)
 Theorem C20_welford_translated_code_exact :
-  forall (K : ofield) (bs : list (list K)),
-    let xs := concat bs in
+  forall (K : ofield) (bs : list (list (list K))),   (* a history of batches, each a tensor given as its list of rows *)
+    let xs := concat (map (@concat K) bs) in
     match gen_scaler_run K bs with
     | (c, m, M2) => c = length xs /\ of_nat (length xs) * m = fsum xs /\ M2 = ssd xs m
     end.
@@ -104,8 +104,8 @@ Print Assumptions C20_warmup_alpha_monotone.
 
 (* the statement about real arithmetic (instance at Coq's R; real-number axioms appear here) *)
 Theorem C20_welford_exact_over_R :
-  forall bs : list (list R),
-    let xs := concat bs in
+  forall bs : list (list (list R)),
+    let xs := concat (map (@concat R) bs) in
     match gen_scaler_run RF bs with
     | (c, m, M2) => c = length xs /\ (INR (length xs) * m = fold_right Rplus 0 xs)%R
     end.
